@@ -21,6 +21,7 @@ import (
 	"github.com/nspcc-dev/neo-go/pkg/config/netmode"
 	"github.com/nspcc-dev/neo-go/pkg/core"
 	"github.com/nspcc-dev/neo-go/pkg/core/block"
+	"github.com/nspcc-dev/neo-go/pkg/core/native/noderoles"
 	"github.com/nspcc-dev/neo-go/pkg/core/state"
 	"github.com/nspcc-dev/neo-go/pkg/core/storage"
 	"github.com/nspcc-dev/neo-go/pkg/core/transaction"
@@ -587,6 +588,7 @@ type Obs struct {
 	Natives    string            `json:"natives"`
 	Contracts  string            `json:"contracts"`
 	Enroll     string            `json:"enrollments"`
+	Roles      string            `json:"designated_roles"`
 	Extra      map[string]string `json:"extra,omitempty"`
 	storageMap map[string]string
 }
@@ -740,6 +742,16 @@ func (n *Node) Observe(maxID int32, hashes []util.Uint160) (o *Obs, err error) {
 		es = append(es, fmt.Sprintf("%s=%s", v.Key.StringCompressed()[:10], v.Votes))
 	}
 	o.Enroll = strings.Join(es, ",")
+	var rs []string
+	for _, role := range []noderoles.Role{noderoles.StateValidator, noderoles.Oracle, noderoles.NeoFSAlphabet, noderoles.P2PNotary} {
+		ks, h, e := bc.GetDesignatedByRole(role)
+		if e != nil {
+			rs = append(rs, fmt.Sprintf("%d:err", role))
+			continue
+		}
+		rs = append(rs, fmt.Sprintf("%d:%s@%d", role, pubs(ks), h))
+	}
+	o.Roles = strings.Join(rs, ";")
 	return o, nil
 }
 
@@ -768,6 +780,7 @@ func (o *Obs) Diff(p *Obs) []string {
 	add("natives", o.Natives, p.Natives)
 	add("contracts", o.Contracts, p.Contracts)
 	add("enrollments", o.Enroll, p.Enroll)
+	add("designated_roles", o.Roles, p.Roles)
 	if o.Storage != p.Storage {
 		n := 0
 		for k, v := range o.storageMap {
